@@ -1,6 +1,9 @@
 import HgVerif.Model.Slots
+import HgVerif.Model.SlotsGrow
 import HgVerif.Driver.Proto
-/-! Model driver for C05: same line protocol as `harness/drv_slots.cpp`. -/
+/-! Model driver for C05: same line protocol as `harness/drv_slots.cpp`.
+The key type token of the case header (`tss:date`, `tsd:i32`, ...) is accepted and ignored: the model is
+key-type independent (keys are `Int`; the C++ driver prints narrow keys through a fixed bijection). -/
 open HgVerif.Slots HgVerif.Driver
 local notation "Time" => Nat
 
@@ -23,11 +26,25 @@ def itemsStr (l : List (Key × String)) : String :=
   brack ((sortBy (fun (a b : Key × String) => decide (a.1 ≤ b.1)) l).map fun p => s!"{p.1}:{p.2}")
 def natsStr (l : List Nat) : String := brack (l.map toString)
 
+/-- the keys named by a dump (`cands`) that pass `contains()` -/
+def containedStr (has : Key → Bool) (cands : List Key) : String :=
+  keysStr ((cands.filter has).eraseDups)
+
+/-- `tss` / `tsd` with an optional key type token -/
+def kindOf (w : String) : Option String :=
+  match w.splitOn ":" with
+  | [k] => if k == "tss" || k == "tsd" then some k else none
+  | [k, ty] => if (k == "tss" || k == "tsd") && (ty == "i64" || ty == "i32" || ty == "date" || ty == "f32") then some k else none
+  | _ => none
+
+/-- narrow keys are limited to |n| < 2^24 by the C++ driver; the model accepts every integer, so the generator
+    stays inside that range for all key types -/
 def dumpTss (x : TSS) (t : Time) : String :=
   let v := keysStr x.value
+  let c := containedStr x.contains (x.value ++ x.addedAt t ++ x.removedAt t)
   let d := if x.modifiedAt t then
       s!"a{keysStr (addedKeysRaw x.keys.slots)}r{keysStr (removedKeysRaw x.keys.slots)}" else "none"
-  s!"lmt={x.lmt} mod={b2s (x.modifiedAt t)} valid={b2s (x.lmt != 0)} n={x.keys.size} v={v} a={keysStr (x.addedAt t)} r={keysStr (x.removedAt t)} vv={v} d={d}"
+  s!"lmt={x.lmt} mod={b2s (x.modifiedAt t)} valid={b2s (x.lmt != 0)} n={x.keys.size} v={v} a={keysStr (x.addedAt t)} r={keysStr (x.removedAt t)} c={c} vv={v} d={d}"
 
 def childStr (s : Slot) : String := if s.clmt != 0 then toString s.cval else "-"
 
@@ -45,9 +62,10 @@ def dumpTsd (x : TSD) (t : Time) : String :=
   let ka := keysStr (if ksMod then addedKeysRaw sl else [])
   let kr := keysStr (if ksMod then removedKeysRaw sl else [])
   let vv := itemsStr (live.map fun s => (s.key, toString s.cval))
+  let c := containedStr x.contains (liveKeys sl ++ x.addedAt t ++ x.removedAt t)
   let d := if x.modifiedAt t then
       s!"r{keysStr (removedKeysRaw sl)}m{itemsStr ((modifiedItemsRaw sl).map fun p => (p.1, toString p.2))}" else "none"
-  s!"lmt={x.lmt} mod={b2s (x.modifiedAt t)} valid={b2s (x.lmt != 0)} n={x.keys.size} v={v} inv={inv} a={keysStr (x.addedAt t)} r={keysStr (x.removedAt t)} m={m} mi={mi} ri={ri} klmt={x.keySetLmt} kv={kv} ka={ka} kr={kr} vv={vv} d={d}"
+  s!"lmt={x.lmt} mod={b2s (x.modifiedAt t)} valid={b2s (x.lmt != 0)} n={x.keys.size} v={v} inv={inv} a={keysStr (x.addedAt t)} r={keysStr (x.removedAt t)} m={m} mi={mi} ri={ri} klmt={x.keySetLmt} kv={kv} ka={ka} kr={kr} c={c} vv={vv} d={d}"
 
 def dumpTsw (w : Win) (t : Time) : String :=
   let modif := t != 0 && w.lmt == t
@@ -108,6 +126,12 @@ def step (o : Obj) (ws : List String) : Obj × String :=
         else
           let r := if op == "add" then x.add t k else x.remove t k
           (.tss r.1, b2s r.2)
+      else if op == "has" then (o, b2s (x.contains k))
+      else if op == "reserve" then
+        match k.toNat? with
+        | some cap => if cap > 4096 then (o, "bad-op") else
+          if t == 0 then (o, "err:invalid-arg") else (.tss (x.stepG (.reserve t cap)), "ok")
+        | none => (o, "bad-op")
       else (o, "bad-op")
     | _, _ => (o, "bad-op")
   | .tss x, [op, t] =>
@@ -132,6 +156,12 @@ def step (o : Obj) (ws : List String) : Obj × String :=
       else if op == "erase" then
         if t == 0 then (o, "err:invalid-arg")
         else let r := x.erase t k; (.tsd r.1, b2s r.2)
+      else if op == "has" then (o, b2s (x.contains k))
+      else if op == "reserve" then
+        match k.toNat? with
+        | some cap => if cap > 4096 then (o, "bad-op") else
+          if t == 0 then (o, "err:invalid-arg") else (.tsd (x.stepG (.reserve t cap)), "ok")
+        | none => (o, "bad-op")
       else (o, "bad-op")
     | _, _ => (o, "bad-op")
   | .tsd x, [op, t] =>
@@ -169,6 +199,11 @@ def step (o : Obj) (ws : List String) : Obj × String :=
     | none => (o, "bad-op")
   | .tsw _, ["slots"] => (o, "-")
   | _, [] => (o, "")
+  | _, [w] =>
+    match kindOf w with
+    | some "tss" => (.tss {}, "ok")
+    | some "tsd" => (.tsd {}, "ok")
+    | _ => (o, "bad-op")
   | _, _ => (o, "bad-op")
 
 def main : IO Unit := run Obj.none step
